@@ -227,7 +227,8 @@ def run(ctx: Ctx):
         "approved; equality of ast.dump of the final files; with and without black; plus programs of dataclass constructor calls whose previous text holds explicit default-valued "
         "keyword arguments (update removes them) next to wrong / missing ones (fix). C: nested list / tuple == snapshots: fix,update together vs fix then update vs update then fix "
         "(the composition law proved for Model/TreeAssign.v). D: real pytest sessions on a project of three test files: all pending categories in one session vs one "
-        "session per category in 7 orders. non-trivial = |P| >= 2; distinct = distinct programs")
+        "session per category in 7 orders. C2: calls of generated dataclasses with positional and keyword arguments (often two or more positional ones): fix,update together vs update then fix vs fix then update, "
+        "identical syntax tree of the final call (the composition law proved for Model/CallAssign.v, which is also compared with the code). non-trivial = |P| >= 2; distinct = distinct programs")
     proof_step(ctx)
     two_run_cases(ctx, 500 if not ctx.thorough else 5000)
     n = 150 if not ctx.thorough else 1500
@@ -259,6 +260,10 @@ def run(ctx: Ctx):
             ctx.report(f"C09 oracle: nested snapshot {ta.render_tree(c['tree'])} observed {c['new']!r}: fix,update together / fix then update / update then fix give different programs: "
                        f"{o['together_src'][-80:]!r} / {o['fix_update_src'][-80:]!r} / {o['update_fix_src'][-80:]!r}", {"kind": "tree", "tree": c["tree"], "new_repr": repr(c["new"])})
     ctx.coverage["oracle"]["nested_snapshots_three_orders"] = nt
+    # C2: constructor calls (positional and keyword arguments, keywords holding defaults): the three routes, and Model/CallAssign.v
+    from .. import callassign as ca
+    ca.check_orders(ctx, 150 if not ctx.thorough else 2000)
+    ca.check_part(ctx, 150 if not ctx.thorough else 1500, "C09", positional=False)
     # D
     so = run_session_orders(None)
     ctx.count(("sessions",), True, n=8)
@@ -279,6 +284,12 @@ def run(ctx: Ctx):
 
 def replay(ctx: Ctx, data):
     c = data["case"]
+    if c.get("kind") == "call-orders":
+        from .. import callassign as ca
+        return ca.replay_orders(c)
+    if c.get("kind") == "call":
+        from .. import callassign as ca
+        return ca.replay_case(c)
     if c.get("kind") == "sessions":
         so = run_session_orders(None)
         return "error" not in so["together"] and all("error" not in r and r == so["together"] for _, r in so["orders"])
